@@ -219,6 +219,10 @@ func OCISpecHostile(t *rapid.T, label string) *oci.Spec {
 	}
 	if s.Process != nil && rapid.Bool().Draw(t, label+"oddEnv") {
 		s.Process.Env = append(s.Process.Env, "NOEQUALS", "", "=x", "A=1", "A=2", "A=1")
+		// entries without '=' that spell the name of a variable the edits set, among the last entries
+		for i, n := 0, rapid.IntRange(0, 3).Draw(t, label+"bareNames"); i < n; i++ {
+			s.Process.Env = append(s.Process.Env, rapid.SampledFrom([]string{"A", "B", "PATH", "CDI_X", "a.b", "x-y", "_", "LONG_NAME_1"}).Draw(t, fmt.Sprintf("%sbare%d", label, i)))
+		}
 		s.Process.User.AdditionalGids = append(s.Process.User.AdditionalGids, 0, 0, 7, 7)
 	}
 	if s.Hooks != nil && rapid.Bool().Draw(t, label+"oddHooks") {
